@@ -122,6 +122,9 @@ ApplyDeco(fh, lh, f, d) ==
          \* functools.wraps-style wrapper: copies the attribute references
          [fh |-> Append(fh, FnObj("foreign", f, fh[f].pre, fh[f].snap, fh[f].post)), lh |-> lh,
           f |-> Len(fh) + 1, err |-> "ok"]
+    [] d.d = "foreign_bare" ->
+         \* functools.wraps(f, updated=()): sets __wrapped__ (and name / doc) but copies no attribute of f
+         [fh |-> Append(fh, FnObj("foreign", f, 0, 0, 0)), lh |-> lh, f |-> Len(fh) + 1, err |-> "ok"]
     [] d.d \in {"require", "ensure"} ->
          LET mk == chk = 0
              \* a new checker gets three fresh lists
